@@ -65,19 +65,34 @@ fn k_unsigned() {
     match FieldValue::from_field_type(&buf[..n], FieldDataType::UnsignedDataNumber, len) {
         Ok((rem, v)) => {
             let w = len as usize;
-            assert!(num_width_ok(len));
+            // Whatever width decodes must consume exactly the declared bytes and carry their
+            // big-endian value.  For the widths the library supports today (1,2,3,4,8,16) the
+            // variant is fixed and the value re-exports at the same width; other widths (RFC
+            // 7011 reduced-size encoding) are not demanded to decode, so a library that learns
+            // them correctly raises no alarm here.
+            assert!(w >= 1 && w <= 16);
             consumed!(rem, buf, n, w);
             let x = be_n(&buf, w);
             match &v {
                 FieldValue::DataNumber(DataNumber::U8(y)) => assert!(w == 1 && *y as u128 == x),
-                FieldValue::DataNumber(DataNumber::U16(y)) => assert!(w == 2 && *y as u128 == x),
-                FieldValue::DataNumber(DataNumber::U24(y)) => assert!(w == 3 && *y as u128 == x),
-                FieldValue::DataNumber(DataNumber::U32(y)) => assert!(w == 4 && *y as u128 == x),
-                FieldValue::DataNumber(DataNumber::U64(y)) => assert!(w == 8 && *y as u128 == x),
-                FieldValue::DataNumber(DataNumber::U128(y)) => assert!(w == 16 && *y == x),
+                FieldValue::DataNumber(DataNumber::U16(y)) => assert!(w <= 2 && *y as u128 == x),
+                FieldValue::DataNumber(DataNumber::U24(y)) => assert!(w <= 3 && *y as u128 == x),
+                FieldValue::DataNumber(DataNumber::U32(y)) => assert!(w <= 4 && *y as u128 == x),
+                FieldValue::DataNumber(DataNumber::U64(y)) => assert!(w <= 8 && *y as u128 == x),
+                FieldValue::DataNumber(DataNumber::U128(y)) => assert!(*y == x),
                 _ => assert!(false),
             }
-            reexport_exact!(v, buf, w);
+            if num_width_ok(len) {
+                match &v {
+                    FieldValue::DataNumber(DataNumber::U8(_)) => assert!(w == 1),
+                    FieldValue::DataNumber(DataNumber::U16(_)) => assert!(w == 2),
+                    FieldValue::DataNumber(DataNumber::U24(_)) => assert!(w == 3),
+                    FieldValue::DataNumber(DataNumber::U32(_)) => assert!(w == 4),
+                    FieldValue::DataNumber(DataNumber::U64(_)) => assert!(w == 8),
+                    _ => assert!(w == 16),
+                }
+                reexport_exact!(v, buf, w);
+            }
             kani::cover!(w == 16);
             kani::cover!(w == 3);
             core::mem::forget(v);
@@ -85,7 +100,6 @@ fn k_unsigned() {
         Err(e) => {
             assert!(!(num_width_ok(len) && n >= len as usize));
             kani::cover!(num_width_ok(len));
-            kani::cover!(len == 5 && n >= 5);
             core::mem::forget(e);
         }
     }
